@@ -1,7 +1,11 @@
 """Translator obligations shared by C02/C03/C04: the coefficient formulas of integration_shared.c,
 the boundary terms / corner guards / coefficient-function wiring of the 15 per-axis kernels and the Python
 coefficient functions of Integration.py are re-read from the CURRENT source and proved equal, for all
-inputs, to the corresponding definitions of the Coq model (ring / field).  Fail closed: a source shape the
+inputs, to the corresponding definitions of the Coq model (ring / field).  The numpy slice programs with which
+_one_pop/_two_pops/_three_pops_const_params assemble the precomputed arrays a, b, c of every axis are executed
+symbolically (harness/translate/npslice.py) and every index class of every array is proved equal to the model's
+coef_a / coef_b0 / coef_c with the M and V functions and the corner flags the model uses on that line
+(python_assembly_obligations; helper lemmas coq/theories/Proofs/PrecalcPython.v).  Fail closed: a source shape the
 translator does not recognise is a failed obligation."""
 import os, re
 from harness import lib
@@ -346,7 +350,7 @@ def python_obligations(ctx, files):
 
 PY_DRIVERS = {1: '_one_pop_const_params', 2: '_two_pops_const_params', 3: '_three_pops_const_params'}
 PY_HDR = '''From Coq Require Import Reals List Lra Lia Arith Bool.
-From Dadi Require Import Base.Num Base.NumR Model.Tridiag Model.Scheme Proofs.PrecalcPython.
+From Dadi Require Import Base.Num Base.NumR Model.Tridiag Model.Scheme Model.NDSweep Proofs.PrecalcPython.
 Import ListNotations. Local Open Scope R_scope.
 '''
 PY_SYM = ['i0', 'i1', 'i2']
@@ -424,15 +428,26 @@ def python_assembly_obligations(ctx, files):
         except RecursionError as e:
             ctx.obligation(what, False, 'translator', 'recursion limit'); continue
         for k in range(d):
-            try:
-                text, names = _py_axis_file(nps, d, k, scal, per_axis[k], defs)
-                files.append(('C02_ob_pyasm_%dD%s' % (d, AX[k]), text, names))
-            except nps.Refuse as e:
-                ctx.obligation('emit the coefficient obligations of %s, axis %s' % (fname, AX[k]), False, 'translator', str(e))
+            # 3-D: one file per class (first / interior / last) of the first other axis, to keep the longest coqc run short;
+            # the a, c and b-interior lemmas every closing theorem needs are repeated in each of the three files
+            for shard in ([None] if d < 3 else ['f', 'm', 'l']):
+                try:
+                    text, names = _py_axis_file(nps, d, k, scal, per_axis[k], defs, shard)
+                    files.append(('C02_ob_pyasm_%dD%s%s' % (d, AX[k], ('_' + shard) if shard else ''), text, names))
+                except nps.Refuse as e:
+                    ctx.obligation('emit the coefficient obligations of %s, axis %s' % (fname, AX[k]), False, 'translator', str(e))
 
-def _py_axis_file(nps, d, k, scal, lemmas, defs):
+def _py_axis_file(nps, d, k, scal, lemmas, defs, shard=None):
     w = _py_wiring(d, k)
-    body = [PY_HDR, 'Section PyAsm.', 'Variable xs : list R.', 'Variables %s : R.' % ' '.join(scal), 'Variable use_delj_trick : bool.',
+    if shard:
+        lemmas = [lm for lm in lemmas if '_' not in lm[2] or lm[2].split('_')[1][0] == shard]
+    used = set(w['ms'] + [w['nu'], w['gamma'], w['h']] + (['beta'] if d == 1 else []))
+    for lm in lemmas:
+        used.update(s_[1] for s_ in nps.walk(lm[6]) if s_[0] == 'var')
+    for n_ in used:
+        if n_ not in scal:
+            raise nps.Refuse('free variable %s that is not a parameter of the driver' % n_)
+    body = [PY_HDR, 'Section PyAsm.', 'Variable xs : list R.', 'Variables %s : R.' % ' '.join(p_ for p_ in scal if p_ in used), 'Variable use_delj_trick : bool.',
             'Notation N := (length xs).', 'Notation dj := use_delj_trick.']
     names = []
     # --- elementwise helper summaries (only _compute_delj): one scalar Definition, proved equal to the model's delta_j
@@ -445,6 +460,7 @@ def _py_axis_file(nps, d, k, scal, lemmas, defs):
                     '  apply (delj_filter_ok (2 * MInt * dx) (exp (2 * MInt * dx / VInt)) VInt); ring. Qed.' % cname)
         names.append(cname[3:])
     Vf = '(Vfunc_beta %s %s)' % (w['nu'], w['beta'])
+    info = {}
     for role, arrname, tagc, idx, c0, c1, term in lemmas:
         os_ = '; '.join('x xs %s' % nps.idx_coq(idx[j]) for j in w['others'])
         Mf = '(Mfunc [%s] [%s] %s %s)' % ('; '.join(w['ms']), os_, w['gamma'], w['h'])
@@ -486,13 +502,10 @@ def _py_axis_file(nps, d, k, scal, lemmas, defs):
         sc.append('unfold Scheme.x, nthF in %s.' % ', '.join('Hd%d' % n_ for n_ in range(len(iv))))
         sc.append('unfold %s. rewrite ?ob_py__compute_delj.' % gname)
         # the delj occurrences: which intervals
-        napp = len(nps.apps_of(term, 'py__compute_delj'))
         ivd = {('a', 'first'): [], ('a', 'mid'): [iv[0]] if iv else [], ('a', 'last'): iv, ('c', 'first'): iv, ('c', 'mid'): iv[1:], ('c', 'last'): [],
                ('b', 'first'): iv, ('b', 'mid'): iv, ('b', 'last'): iv}[(role, tagc.split('_')[0])]
-        if napp != len(ivd):
-            raise nps.Refuse('%s: %d applications of _compute_delj where the scheme has %d' % (gname, napp, len(ivd)))
-        for t_ in ivd:
-            sc.append('py_fold_delj xs %s %s dj %s.' % (Vf, Mf, t_))
+        for t_ in ivd:      # (a different number of occurrences in the source leaves an occurrence unfolded: the lemma fails)
+            sc.append('try (py_fold_delj xs %s %s dj %s).' % (Vf, Mf, t_))
         sc.append('unfold %s, dfactor, Scheme.N. py_nat_dec. cbn [andb]. py_idx_norm. pnR.' % {'a': 'coef_a, atemp', 'c': 'coef_c, ctemp', 'b': 'coef_b0, bc0, bc1, atemp, ctemp'}[role])
         conds = nps.conds_of(term)
         for c in conds:
@@ -506,6 +519,56 @@ def _py_axis_file(nps, d, k, scal, lemmas, defs):
         sc.append('  py_unfold_pointwise; field; py_side.')
         body.append('Proof.\n  ' + '\n  '.join(sc) + '\nQed.')
         names.append(gname)
+        info[gname] = [j for j, q in enumerate(idx) if q[0] in ('s', 'a')]
+    # --- closing theorems, one per class of line: the three arrays restricted to a line (first / interior / last point)
+    #     make the precomputed-coefficient solve equal to the model's line solve with that line's M and corner flags
+    import itertools
+    others = w['others']
+    for combo in itertools.product(['first', 'mid', 'last'], repeat=len(others)):
+        if shard and combo[0][0] != shard:
+            continue
+        lidx = {j: {'first': ('c', 0), 'mid': ('s', PY_SYM[j], 0), 'last': ('e', 0)}[cn] for j, cn in zip(others, combo)}
+        ctag = ''.join(cn[0] for cn in combo)
+        obs = []
+        def app(role, pcls):
+            g = 'py%dD%s_%s_%s' % (d, AX[k], role, pcls)
+            if role == 'b' and pcls != 'mid' and others:
+                g += '_' + ctag
+            obs.append('apply ob_' + g)
+            args = ['i' if j == k else nps.idx_coq(lidx[j]) for j in info[g]]
+            return ('(%s %s)' % (g, ' '.join(args))) if args else g
+        def fun(role):
+            return '(fun i : nat => if Nat.eqb i 0 then %s else if Nat.eqb i (N - 1) then %s else %s)' % (app(role, 'first'), app(role, 'last'), app(role, 'mid'))
+        fa, fb, fc = fun('a'), fun('b'), fun('c')
+        os_ = '; '.join('x xs %s' % nps.idx_coq(lidx[j]) for j in others)
+        Mf = '(Mfunc [%s] [%s] %s %s)' % ('; '.join(w['ms']), os_, w['gamma'], w['h'])
+        c0 = 'true' if all(cn == 'first' for cn in combo) else 'false'
+        c1 = 'true' if all(cn == 'last' for cn in combo) else 'false'
+        mids = [PY_SYM[j] for j, cn in zip(others, combo) if cn == 'mid']
+        hyps = ['(2 <= N)%nat', '(forall p, (S p < N)%nat -> x xs p < x xs (S p))', '%s <> 0' % w['nu']] + (['beta <> 0'] if d == 1 else [])
+        for m_ in mids:
+            hyps += ['(1 <= %s)%%nat' % m_, '(%s <= N - 2)%%nat' % m_]
+        tname = 'py%dD%s_line%s' % (d, AX[k], ('_' + ctag) if ctag else '')
+        body.append('Theorem %s : %s%s ->\n  forall (dt : R) (phi : list R), length phi = N ->\n  precalc_solve (map %s (seq 0 N))\n    (map %s (seq 0 N))\n    (map %s (seq 0 N)) dt phi\n  = line_solve xs %s %s %s %s %s dt dj phi.' % (
+            tname, ('forall %s, ' % ' '.join('(%s : nat)' % m_ for m_ in mids)) if mids else '', ' -> '.join(hyps), fa, fb, fc, Vf, Mf, w['nu'], c0, c1))
+        # obs order: a first,last,mid ; b first,last,mid ; c first,last,mid   -> goal order first,mid,last per array
+        order = [0, 2, 1, 3, 5, 4, 6, 8, 7]
+        body.append('Proof.\n  intros. apply (python_coefficients_give_model_line xs %s %s %s %s %s dj\n    %s\n    %s\n    %s); try assumption.\n' % (Vf, Mf, w['nu'], c0, c1, fa, fb, fc)
+                    + '\n'.join('  - intros; cbn beta; repeat match goal with |- context [Nat.eqb ?a ?b] => destruct (Nat.eqb_spec a b); try lia end; %s; assumption.' % obs[o_] for o_ in order)
+                    + '\nQed.')
+        names.append(tname)
+        # the same line through the model's d-dimensional vocabulary: on a grid running from exactly 0 to exactly 1 the
+        # index placement of the absorbing terms ([0,..,0] / [-1,..,-1]) is the by-value corner test of sweep_line
+        cname_ = 'py%dD%s_sweep_line%s' % (d, AX[k], ('_' + ctag) if ctag else '')
+        pop_ = '{| p_nu := %s; p_gamma := %s; p_h := %s; p_beta := %s; p_ms := [%s]; p_frozen := fr; p_nomut := nm |}' % (
+            w['nu'], w['gamma'], w['h'], w['beta'], '; '.join(w['ms']))
+        js_ = '; '.join(nps.idx_coq(lidx[j]) for j in others)
+        body.append('Corollary %s : forall %s(fr nm : bool), %s -> x xs 0%%nat = 0 -> x xs (N - 1)%%nat = 1 ->\n  forall (dt : R) (phi : list R), length phi = N ->\n  precalc_solve (map %s (seq 0 N))\n    (map %s (seq 0 N))\n    (map %s (seq 0 N)) dt phi\n  = sweep_line [%s] %s %d%%nat [%s] dt dj phi.' % (
+            cname_, ''.join('(%s : nat) ' % m_ for m_ in mids), ' -> '.join(hyps), fa, fb, fc, '; '.join(['xs'] * d), pop_, k, os_))
+        body.append('Proof.\n  intros. unfold sweep_line. cbn [nth p_nu p_gamma p_h p_beta p_ms]. numR.\n'
+                    '  destruct (corner_flags_by_index xs [%s] ltac:(assumption) ltac:(assumption) ltac:(assumption) ltac:(assumption) ltac:(repeat constructor; lia)) as [E0 E1].\n'
+                    '  cbn [map] in E0, E1. rewrite E0, E1. cbn [forallb]. py_nat_dec. cbn [andb]. apply %s; assumption.\nQed.' % (js_, tname))
+        names.append(cname_)
     body.append('End PyAsm.')
     return '\n'.join(body) + '\n', names
 
@@ -520,6 +583,14 @@ def obligations(ctx, tag='C02'):
     res = lib.run_case_files([(n.replace('C02', tag), t) for n, t, _ in files], timeout=600)
     for (n, t, names) in files:
         rc, so, se, secs = res[n.replace('C02', tag)]
-        ctx.obligation('generated obligations %s: %d lemmas (source formula = model definition, ring/field)' % (n.replace('C02', tag), len(names)), rc == 0, 'translator', se[-600:] if rc else '')
-    ctx.checker_cmds.append('coqc build/cases/%s_ob_{shared,kernels,python}.v (regenerated from dadi/integration*.c, Integration.py)' % tag)
-    ctx.trusted.append('translators harness/translate/cexpr.py, pyexpr.py and the kernel descriptor patterns in harness/props/c02_translate.py (fail-closed)')
+        detail = ''
+        if rc:
+            # name the lemma the first error falls in
+            mm = re.search(r'line (\d+)', se)
+            if mm:
+                heads = re.findall(r'^(?:Lemma|Theorem) (\w+)', '\n'.join(t.split('\n')[:int(mm.group(1))]), re.M)
+                detail = ('first failing lemma: %s; ' % heads[-1]) if heads else ''
+            detail += se[-600:]
+        ctx.obligation('generated obligations %s: %d lemmas (source formula = model definition, ring/field)' % (n.replace('C02', tag), len(names)), rc == 0, 'translator', detail)
+    ctx.checker_cmds.append('coqc build/cases/%s_ob_{shared,kernels,python,pyasm_1Dx,pyasm_2D{x,y},pyasm_3D{x,y,z}_{f,m,l}}.v (regenerated from dadi/integration*.c, Integration.py)' % tag)
+    ctx.trusted.append('translators harness/translate/cexpr.py, pyexpr.py, npslice.py (numpy slice dialect of the constant-parameter drivers; reading of the nan/inf filter on a quotient as "denominator = 0") and the kernel descriptor patterns in harness/props/c02_translate.py (fail-closed)')
